@@ -74,3 +74,30 @@ package utils
 //@   ensures [onlyAccepted] forall j *podgroup_info.PodGroupInfo :: pushed(j) && !old(pushed(j)) ==> filter == nil || filterHolds(filter, j)
 //@   ensures [onlySessionJobs] forall j *podgroup_info.PodGroupInfo :: pushed(j) && !old(pushed(j)) ==> memberOf(ssn.ClusterInfo.PodGroupInfos, j)
 //@ end
+
+// ---- exec: the job order as used by the Execute loops of preempt / reclaim / consolidation (C05) ----------
+// The order structure is a tree of container/heap priority queues with comparator closures (outside the
+// subset, like PushJob). orderEmpty(jo) is the abstract answer of IsEmpty. Assumed: IsEmpty reads only;
+// PopNextJob writes only the order structure itself (queue nodes, priority queues and their item arrays,
+// jo.queueNodes, jo.rootNodes, jo.poppedJobsByQueue) - never jobs, queues, the session or any other object -
+// and, on a non-empty order, returns a job (the tree keeps no empty node linked: handlePopFromNode prunes
+// them; getNextNode's "should never happen" branch). NB this holds only for orders built with
+// MaxJobsQueueDepth != 0: with depth 0 PushJob links a leaf whose job queue immediately drops the job, the
+// order is "not empty" and PopNextJob returns nil (reproduced on the real code, notes/exec_depth0_demo_test.go.txt);
+// the Execute units that rely on [nonEmptyYieldsJob] therefore carry `requires [queueDepthNotZero]`.
+//@ ghost orderEmpty(jo *JobsOrderByQueues) bool
+//@ func (*JobsOrderByQueues).IsEmpty
+//@   props C05
+//@   trusted
+//@   note container/heap priority queue (scheduler_util.PriorityQueue.Empty) is outside the subset; assumed read-only; the ghost orderEmpty names its answer
+//@   pure
+//@   ensures result == orderEmpty(jo)
+//@ end
+//@ func (*JobsOrderByQueues).PopNextJob
+//@   props C05
+//@   trusted
+//@   note container/heap + comparator closures + recursive tree relinking are outside the subset; assumed frame: only the order structure (queueNode / PriorityQueue objects, jo.queueNodes, jo.rootNodes, jo.poppedJobsByQueue) changes; assumed: a non-empty order yields a job (pruning invariant of the tree)
+//@   modifies orderEmpty(jo), jo.queueNodes[*], jo.rootNodes, jo.poppedJobsByQueue[*], family(jo.rootNodes.queue), family(jo.rootNodes.maxQueueSize), family(jo.queueNodes[""].queue), family(jo.queueNodes[""].children), family(jo.queueNodes[""].needsReorder), family(jo.queueNodes[""].parent), family(jo.queueNodes[""].isLeaf), family(jo.rootNodes.queue.items[*])
+//@   ensures [nonEmptyYieldsJob] !old(orderEmpty(jo)) ==> result != nil
+//@ end
+// ---- end exec ----
